@@ -210,7 +210,9 @@ func init() {
 		scen := fs.String("scenarios", "", "write the scenarios (JSON lines) here")
 		park := fs.Bool("park", false, "park mode")
 		par := fs.Int("par", 8, "histories run in parallel (free-running mode)")
+		only := fs.String("op", "", "only this constructor")
 		_ = fs.Parse(args)
+		kernel.OnlyMultiLinOp = *only
 		kernel.InstallHooks()
 		r := rand.New(rand.NewSource(*seed))
 		w, err := rec.NewWriter(*out)
